@@ -99,6 +99,9 @@ func (g *irGenCtx) genModels() {
 				tags = append(tags, fmt.Sprintf(`validate:"%s"`, g.genValidator(f.Type)))
 			}
 			f.Tag = strings.Join(tags, " ")
+			if badValidators && len(f.Tag) > 0 && r.Chance(1, 12) {
+				f.Tag = f.Tag[:len(f.Tag)-1] // an unterminated tag value (the source still compiles)
+			}
 			s.Fields = append(s.Fields, f)
 		}
 		if i > 0 && r.Chance(1, 5) {
